@@ -12,10 +12,15 @@ are in `Proofs/Output.lean`.  Every theorem holds for every stage list / crash i
 directory content (`st.fs` is arbitrary); the stage lists of the three programs are tied to the real
 functions by the fault-injection correspondence of `harness/c20.py`.
 
+The ORDER of the stage lists and "nothing follows the flush" are additionally proved against the call
+sequence of the current source (`Generated/OutputTables.lean`, translator `harness/tables/output.py`):
+`C20_source_gen_params`, `C20_source_gen_coords`, `C20_source_gen_seq` (`decide` over the generated tables).
+
 Partial (outside the model): atomicity of `shutil.move`; reuse of the singleton writer by a later run of
 the same process after a failed run (`C20_success` asks for an empty queue at the start, `C20_no_partial`
 does not).
 -/
+import PolyplyVerif.Generated.OutputTables
 import PolyplyVerif.Model.Output
 import PolyplyVerif.Proofs.Output
 
@@ -153,6 +158,97 @@ example :
     look fs' (.backup "out.gro" 1) = some "older" ∧ look fs' (.file "x.top") = some "t" ∧
     look fs' (.tmp 0) = none := by
   decide
+
+/-! ### the stage lists against the call sequence of the source AS IT IS NOW
+
+`OutputTables.gen…Calls` is regenerated from `/repo` on every run (`harness/tables/output.py`, `ast` only):
+every call of the three function bodies in source order, private helpers expanded in place.  The
+theorems below are `decide` over these finite tables, so they are re-proved against the current source;
+a stage moved behind the flush, or a new stage inserted after it, breaks them. -/
+
+/-- **`gen_params`: same order as the source, and nothing follows the flush.**  For every option variant
+the labels of the stage list that are calls of `gen_itp.py` occur in the source in the order of the list
+(`deferred_open` before `write_molecule_itp` before `DeferredFileWriter.write`, every computing stage
+before them); the flush is called, and every call after it is benign (printing the log entries).
+(`decide` on the two maximal variants; every variant is a sublist of one of them.) -/
+theorem C20_source_gen_params :
+    (∀ seqFile dsdna : Bool,
+      orderConsistent (stageLabels (genParamsStages seqFile dsdna "o" ["c"])) OutputTables.genParamsCalls = true) ∧
+    (findCall OutputTables.genParamsCalls "deferred_open").isSome = true ∧
+    quietAfter OutputTables.genParamsCalls "DeferredFileWriter.write" = true := by
+  refine ⟨?_, by decide +kernel, by decide +kernel⟩
+  have hmax : ∀ seqFile : Bool,
+      orderConsistent (stageLabels (genParamsStages seqFile true "o" ["c"])) OutputTables.genParamsCalls = true := by
+    decide +kernel
+  intro seqFile dsdna
+  have hsub : (stageLabels (genParamsStages seqFile dsdna "o" ["c"])).Sublist
+      (stageLabels (genParamsStages seqFile true "o" ["c"])) := by
+    revert seqFile dsdna; decide
+  exact orderedFrom_sublist _ hsub 0 (hmax seqFile)
+
+/-- **`gen_coords`: same order as the source, and the flush is the last call of the program.** -/
+theorem C20_source_gen_coords :
+    (∀ split coord build skipFilter : Bool,
+      orderConsistent (stageLabels (genCoordsStages split coord build skipFilter "o" ["c"]))
+        OutputTables.genCoordsCalls = true) ∧
+    (findCall OutputTables.genCoordsCalls "write_gro").isSome = true ∧
+    quietAfter OutputTables.genCoordsCalls "DeferredFileWriter.write" = true := by
+  refine ⟨?_, by decide +kernel, by decide +kernel⟩
+  have hmax : orderConsistent (stageLabels (genCoordsStages true true true true "o" ["c"]))
+      OutputTables.genCoordsCalls = true := by decide +kernel
+  intro split coord build skipFilter
+  have hsub : (stageLabels (genCoordsStages split coord build skipFilter "o" ["c"])).Sublist
+      (stageLabels (genCoordsStages true true true true "o" ["c"])) := by
+    revert split coord build skipFilter; decide
+  exact orderedFrom_sublist _ hsub 0 hmax
+
+/-- **`gen_seq`: same order as the source; builtin `open` precedes `json.dump`, nothing follows it.** -/
+theorem C20_source_gen_seq :
+    (∀ fromFile mods : Bool,
+      orderConsistent (stageLabels (genSeqStages fromFile mods "o" ["c"])) OutputTables.genSeqCalls = true) ∧
+    (findCall OutputTables.genSeqCalls "open").isSome = true ∧
+    quietAfter OutputTables.genSeqCalls "json.dump" = true := by
+  refine ⟨?_, by decide +kernel, by decide +kernel⟩
+  have hmax : orderConsistent (stageLabels (genSeqStages true true "o" ["c"])) OutputTables.genSeqCalls = true := by
+    decide +kernel
+  intro fromFile mods
+  have hsub : (stageLabels (genSeqStages fromFile mods "o" ["c"])).Sublist
+      (stageLabels (genSeqStages true true "o" ["c"])) := by
+    revert fromFile mods; decide
+  exact orderedFrom_sublist _ hsub 0 hmax
+
+/-- what `orderConsistent` means: of two labels of the list that both occur in the source, the earlier
+one of the list is called first — for every table and every list. -/
+theorem C20_order_sound (calls : List CallRow) (labels : List String) (lo : Nat)
+    (h : orderedFrom calls lo labels = true) :
+    ∀ (a b : Nat) (la lb : String) (ia ib : Nat), a < b → labels[a]? = some la → labels[b]? = some lb →
+      findCall calls la = some ia → findCall calls lb = some ib → lo ≤ ia ∧ ia < ib :=
+  orderedFrom_sound calls labels lo h
+
+/-- non-vacuity on a literal table (the examples must not pin positions of the generated tables: those move
+with every harmless edit of the source): labels found in increasing positions; a list in the wrong order is
+rejected; a stage after the flush is rejected; the unnamed calls are listed -/
+def exCalls : List CallRow :=
+  [(0, "LOGGER.info", true, ["LOGGER.info", "info"]),
+   (0, "Topology.from_gmx_topfile", false, ["Topology.from_gmx_topfile", "from_gmx_topfile"]),
+   (0, "?.split_residue", false, ["?.split_residue"]),
+   (0, "np.loadtxt", false, ["np.loadtxt", "loadtxt"]),
+   (0, "BuildSystem", false, ["BuildSystem"]),
+   (0, "BuildSystem.run_system", false, ["BuildSystem.run_system", "run_system"]),
+   (0, "vermouth.gmx.gro.write_gro", false, ["vermouth.gmx.gro.write_gro", "gmx.gro.write_gro", "gro.write_gro", "write_gro"]),
+   (0, "DeferredFileWriter.write", false, ["DeferredFileWriter.write", "write"]),
+   (0, "print", true, ["print"])]
+
+example : ["Topology.from_gmx_topfile", "MetaMolecule.split_residue", "load_build_files", "BuildSystem.run_system",
+      "write_gro", "DeferredFileWriter.write"].filterMap (findCall exCalls) = [1, 2, 5, 6, 7] ∧
+    orderConsistent ["Topology.from_gmx_topfile", "MetaMolecule.split_residue", "load_build_files",
+      "BuildSystem.run_system", "write_gro", "DeferredFileWriter.write"] exCalls = true ∧
+    orderConsistent ["DeferredFileWriter.write", "write_gro"] exCalls = false ∧
+    quietAfter exCalls "DeferredFileWriter.write" = true ∧
+    quietAfter (exCalls ++ [(0, "postprocess", false, ["postprocess"])]) "DeferredFileWriter.write" = false ∧
+    unnamedCalls ["Topology.from_gmx_topfile", "MetaMolecule.split_residue", "BuildSystem.run_system", "write_gro",
+      "DeferredFileWriter.write"] exCalls = ["np.loadtxt", "BuildSystem"] := by
+  decide +kernel
 
 /-- The executable oracles used on real directory listings decide exactly the two specifications. -/
 theorem C20_oracle_unchanged (fs fs' : FS) : specUnchangedB fs fs' = true ↔ SpecUnchanged fs fs' :=
